@@ -306,6 +306,12 @@ def gen_cases(rng, tier):
             for warm in ((0, 1, 3) if quick else (0, 1, 2, 3, 7, 20)):
                 cases.append({"k": "reflect", "mech": mech, "dir": d, "warm": warm, "seed": rng.randrange(1, 60000),
                               "msg": gen_msg(rng, SMALL)})
+    # early data: the server's first record reaches the client together with (or right behind) the server's READY
+    for mech in ("curve", "noise"):
+        for (join, cut) in ((True, 0), (False, 0), (True, 1), (True, 30), (True, 60)) if quick else \
+                [(True, 0), (False, 0)] + [(True, k) for k in (1, 2, 9, 20, 30, 41, 60, 80, 100)]:
+            cases.append({"k": "early", "mech": mech, "join": join, "cut": cut, "seed": rng.randrange(1, 60000),
+                          "msg": gen_msg(rng, SMALL)})
     return cases
 
 
@@ -335,6 +341,8 @@ def to_coq(c):
     mech = 0 if c["mech"] == "curve" else 1
     if c["k"] == "sessions":
         return "(CSessions %d %d [%s])" % (mech, c.get("dir", 0), "; ".join(E.c_fr(f) for f in c["msg"]))
+    if c["k"] == "early":
+        return "(CEarly %d [%s])" % (mech, "; ".join(E.c_fr(f) for f in c["msg"]))
     if c["k"] == "reflect":
         return "(CReflect %d %d %d [%s])" % (mech, c.get("dir", 0), c["warm"], "; ".join(E.c_fr(f) for f in c["msg"]))
     hb = "None" if "hb" not in c else "(Some (%d, %d))" % (c["hb"]["ivl"], c["hb"]["timeout"])
@@ -377,6 +385,16 @@ def oracle(c, o):
         return None
     if not o.get("hs"):
         return ("handshake between honest peers failed", None)
+    if c["k"] == "early":
+        r = rows[0]
+        if r[2] != 1:
+            return ("the message the server sent right after its handshake completed was %s by the client (%s)"
+                    % ("not delivered" if r[2] == 0 else "delivered %d times / split" % r[2],
+                       "READY and the record in one read" + (", cut after %d bytes" % c["cut"] if c["cut"] else "") if c["join"] else "separate reads"), None)
+        if rows[1:] != o.get("sent"):
+            return ("the client delivered something that is not the message the server sent (ciphertext / mis-framed bytes) when the "
+                    "first record arrived %s" % ("in the same read as READY" if c["join"] else "in its own read"), None)
+        return None
     if c["k"] == "reflect":
         r = rows[0]
         if r[2] != 2 * c["warm"]:
@@ -500,7 +518,7 @@ def oracle(c, o):
 
 
 def nontrivial(c, o):
-    return any(r and r[0] in (7, 8, 70, 62) for r in o["rows"])
+    return any(r and r[0] in (7, 8, 70, 62, 63) for r in o["rows"])
 
 
 def shrink(c):
